@@ -58,6 +58,8 @@ def set_memo_shape(ctx, r) -> str:
     for n in walk_scope(f.node):
         if isinstance(n, ast.Call) and isinstance(n.func, ast.Attribute) and n.func.attr in ("update", "clear"):
             return "inplace"
+        if isinstance(n, ast.For) and any(isinstance(x, ast.Subscript) and r.tl_of_expr(f, x.value, al) is not None for x in ast.walk(n.iter)):
+            return "inplace"  # some other in-place scheme; its correctness is judged by the restore rule
     raise AnalysisError("set_shape_memo: neither a replacement of the stack top nor an in-place restore recognised")
 
 
@@ -117,6 +119,9 @@ def check_freshness(ctx, r, cg):
         ctx.bad("C13.1", caller, call, f"the bindings reported (`{norm(a)}`) are not provably those of the current context")
     ctx.counters["shape_str_call_sites"] = n
     ctx.floor("C13.1", "shape_str_call_sites", 3)
+    # "none taken from the check that failed": the rollback must reinstate the snapshot
+    stack_tl, stack_attr, _ = c05.locate_stack(r)
+    c05._check_set(ctx, r, r.set, stack_tl, stack_attr, "C13.1")
 
 
 # ------------------------------------------------------------------------ C13.2
